@@ -130,15 +130,18 @@ class Eval:
         if o is None:
             return "?", None
         ab = b["fld"] + o
+        best = None
         for name, (off, size) in self.c5.b.fields.items():
-            if off <= ab < off + size:
-                return name, (ab - off if seg.off is not None else None)
+            if off <= ab < off + size and (best is None or size < best[2]):
+                best = (name, (ab - off if seg.off is not None else None), size)
+        if best is not None:
+            return best[0], best[1]
         return None
 
 
 class St:
     __slots__ = ("vals", "pvals", "facts", "off", "pos", "T", "blocks", "refills", "uses", "stage", "obase", "ibase",
-                 "size0", "off_stores", "bad", "sub")
+                 "size0", "off_stores", "bad", "sub", "carrier")
 
     def copy(self):
         n = St()
@@ -151,6 +154,7 @@ class St:
         n.off_stores = list(self.off_stores)
         n.bad = list(self.bad)
         n.sub = self.sub
+        n.carrier = getattr(self, "carrier", None)
         return n
 
 
@@ -260,6 +264,7 @@ class Proto:
         st.obase, st.ibase = (("a", outk[0]), lf_const(0)), (("a", ink[0]), lf_const(0))
         st.size0 = atom(("a", self.size_param[0]))
         st.sub = None
+        st.carrier = None
         self.E = Eval(self.C5, f, self.am)
         self.walk(f.entry, None, st)
         rpo = {b: n for n, b in enumerate(f.rpo())}
@@ -289,6 +294,12 @@ class Proto:
             st.blocks, st.refills, st.uses, st.off_stores, st.bad = [], [], [], [], []
             st.stage = "loop@" + h
             st.sub = None
+            # the keystream position may be carried by a local across iterations (read from ctx->offset before
+            # the loop, written back after it): then the ghost starts as that loop-carried value
+            cars = {getattr(s_, "carrier", None) for s_ in ents} - {None}
+            st.carrier = next(iter(cars)) if len(cars) == 1 else None
+            if st.carrier is not None:
+                st.pos = atom(("i", st.carrier))
             hphis = [i for i in f.bbmap[h]["insts"] if i["op"] == "phi"]
             st.obase = st.ibase = None
             st.size0 = None
@@ -301,7 +312,7 @@ class Proto:
                         st.obase = (("phi", ph["id"]), lf_const(0))
                     elif r == "in":
                         st.ibase = (("phi", ph["id"]), lf_const(0))
-                else:
+                elif ph["id"] != st.carrier:
                     ints.append(ph)
             if len(ints) == 1:
                 st.size0 = atom(("i", ints[0]["id"]))
@@ -593,6 +604,24 @@ class Proto:
                 self.emit("ok", "C05.R3", label, loc, "refill: E(counter)->ecounter under own schedule, only when the buffer is exhausted, lanes advanced %s" % want)
         # ---- in sync at the end
         sync = st.off == st.pos or (prove_ge0(lf_add(st.pos, BATCH, -1), st.facts) and prove_ge0(lf_add(st.off, BATCH, -1), st.facts))
+        if not sync and kind == "latch":
+            # a loop-carried local may hold the position instead of the field (written back after the loop)
+            E = self.E
+            E.vals, E.pvals = st.vals, st.pvals
+            for ph in f.bbmap[header]["insts"]:
+                if ph["op"] != "phi" or ph["type"].endswith("*"):
+                    continue
+                for x, pb in zip(ph["ops"], ph["inblocks"]):
+                    if pb != latch or st.vals.get(ph["id"], atom(("i", ph["id"]))) == st.size0:
+                        continue
+                    nx = E.lf(x)
+                    both_spent = nx is not None and (st.carrier == ph["id"]) and \
+                        prove_ge0(lf_add(st.pos, BATCH, -1), st.facts) and prove_ge0(lf_add(nx, BATCH, -1), st.facts)
+                    if nx == st.pos or both_spent:
+                        st.carrier = ph["id"]
+                        sync = True
+        elif kind == "latch" and st.stage.startswith("loop@") and st.carrier is not None:
+            pass
         if not sync:
             if st.uses and not st.off_stores:
                 self.emit("violation", "C05.R5", label, site, "%s keystream bytes are used but offset is not updated on this path: the next call re-uses or skips keystream" % lf_str(st.T))
